@@ -1,18 +1,18 @@
 #!/usr/bin/env python3
-"""development aid: derive the skeleton of contracts/radau_R.vspec (World R) from contracts/radau_A.vspec:
+"""development aid: derive the skeleton of contracts/bdf_R.vspec (World R) from contracts/bdf_A.vspec:
 same takes and safety invariants, World-A-only clauses (call counters, IEEE clamp bounds, mass products) removed."""
 import re
-L = open('/verif/contracts/radau_A.vspec').read().split('\n')
+L = open('/verif/contracts/bdf_A.vspec').read().split('\n')
 out = []
-drop_pat = re.compile(r"tr\.ode_calls|tr\)\.ode_calls|jac_calls|fd_ode_calls|same_run|old\(tr\)\.y0|finite\(x0\)|inv\(tr\.solout_calls, tr\.last_x\)|inv\(0, old\(tr\)\.last_x\)|f_ge\(|radau_hmax|mrow_acc|e_entries_ok|neg_le_self|xph == x\.add_spec|// f64::clamp panics|let ghost \(a0, b0, c0\)")
+drop_pat = re.compile(r"clamp_cast|tr\.ode_calls|tr\)\.ode_calls|jac_calls|fd_ode_calls|same_run|old\(tr\)\.y0|finite\(x0\)|inv\(tr\.solout_calls, tr\.last_x\)|inv\(0, old\(tr\)\.last_x\)|f_ge\(|radau_hmax|mrow_acc|e_entries_ok|neg_le_self|xph == x\.add_spec|// f64::clamp panics|let ghost \(a0, b0, c0\)")
 i = 0
 while i < len(L):
     l = L[i]
-    if l.startswith('#unit'): l = '#unit radau_R'
+    if l.startswith('#unit'): l = '#unit bdf_R'
     elif l.startswith('#world'): l = '#world R'
     elif l.startswith('#include prelude/fp_a.rs'): l = '#include prelude/fp_r.rs'
     elif l.startswith('#include prelude/ieee_axioms.rs'): i += 1; continue
-    elif l.startswith('#include prelude/use_a.rs'): l = '#gen world_r src/methods/radau.rs\n#include prelude/use_r.rs'
+    elif l.startswith('#include prelude/use_a.rs'): l = '#gen world_r src/methods/bdf.rs\n#include prelude/use_r.rs'
     elif l.startswith('#use contracts/matrix_core_A') or l.startswith('#use contracts/matrix_min_A'): l = '#use contracts/matrix_min_A.vspec'
     elif l.startswith('#use contracts/common_A'): l = '#use contracts/common_R.vspec'
     elif l.startswith('#use contracts/ivp_full_A'): l = '#use contracts/ivp_full_R.vspec'
@@ -34,4 +34,4 @@ while i < len(L):
                 nl = L[i + 1]; k = len(nl) - len(nl[1:].lstrip()); L[i + 1] = nl[:k] + 'invariant ' + nl[k:]
             i += 1; continue
     out.append(l); i += 1
-open('/verif/contracts/radau_R.vspec', 'w').write('\n'.join(out))
+open('/verif/contracts/bdf_R.vspec', 'w').write('\n'.join(out))
